@@ -18,7 +18,7 @@ def main(args):
     try:
         more = (corpus.read_jobs("corpus.specs", list(specs.ALL), inc, only_safety=True) + corpus.vwrite_jobs("corpus.specs", inc, only_safety=True)
                 + corpus.c20_jobs("corpus.specs", [n for n, s in specs.ALL.items() if getattr(s, "c20", True)], inc, only_safety=True))
-        r = viewcheck.run("C04", args, ["UInt", "Int", "Bcd", "Flag", "Float", "Enum"], ["read", "write"], keep=keep, only_safety=True, more_jobs=more,
+        r = viewcheck.run("C04", args, ["UInt", "Int", "Bcd", "Flag", "Float", "Enum"], ["read", "write"], keep=keep, enum_subset_in_quick=True, only_safety=True, more_jobs=more,
                           functions=["every function under contract in C02 and C03 (same wrappers, safety obligations)",
                                      "generated views of the corpus structures: Ok/IsComplete/SizeIsKnown/has_x/x().Ok/Read/CouldWriteValue/TryToWrite/Equals/TryToCopyFrom harnesses (safety obligations)"])
     finally:
